@@ -27,10 +27,99 @@ const (
 	sigNonTerm   = "vm.Verify does not terminate: a CHECKPREDICATE loop gains gas on every iteration"
 	sigFreeMS    = "CHECKMULTISIG with zero public keys takes nothing from the potential"
 	sigCPGain    = "a CHECKPREDICATE instruction raises the potential of its VM (refund of a failed child's unpaid stack)"
+	// the same three observations when the KNOWN mechanism (a child instruction failing in the deferred
+	// charge after an unpaid deferred-cost push) does not account for them: some other way of creating gas
+	sigCreated    = "gas is created: vm.Verify returns more gas than the limit, beyond what the known deferred-cost refund accounts for"
+	sigNonTermNew = "vm.Verify does not terminate within the step bound although no known deferred-cost refund accounts for the gas"
+	sigCPCreated  = "a CHECKPREDICATE instruction raises the potential of its VM beyond what the known deferred-cost refund accounts for"
+	sigNegLimit   = "a VM executes an instruction with a negative run limit"
 )
 
 type c07gen struct {
 	c *Ctx
+}
+
+// c07bigOperands: numbers at and around the int64 / uint64 borders and wide numbers whose low
+// word is small — the operands of every opcode that converts a stack item with bigIntInt64 /
+// Uint64 (CHECKPREDICATE limit and count, PICK/ROLL index, SUBSTR/LEFT/RIGHT sizes, CHECKOUTPUT
+// index and amount, CHECKMULTISIG counts).
+func c07bigOperands() [][]byte {
+	var out [][]byte
+	add := func(n *big.Int) { out = append(out, leBytes(n)) }
+	p63, p64 := pow2(63), pow2(64)
+	for _, d := range []int64{-2, -1, 0, 1} {
+		add(new(big.Int).Add(p63, big.NewInt(d)))
+	}
+	for _, k := range []int64{1, 2, 256, 1000, 1000000, 1 << 40} {
+		add(new(big.Int).Sub(p64, big.NewInt(k)))
+	}
+	for _, d := range []int64{0, 1, 5} {
+		add(new(big.Int).Add(p64, big.NewInt(d)))
+	}
+	for _, e := range []uint{72, 128, 200, 248, 254} {
+		add(new(big.Int).Add(pow2(e), big.NewInt(3)))
+	}
+	add(new(big.Int).Sub(pow2(255), big.NewInt(1)))
+	add(pow2(255))
+	return out
+}
+
+var c07big = c07bigOperands()
+
+// bigOperandBlock: one instruction of the bigIntInt64 family fed with a border operand.
+func (g *c07gen) bigOperandBlock(depth int) []byte {
+	r := g.c.Rng
+	operand := func() []byte { return vm.PushDataBytes(c07big[r.Intn(len(c07big))]) }
+	small := func(n int) []byte { return num(int64(r.Intn(n))) }
+	str := vm.PushDataBytes([]byte("abcdefgh"))
+	var b []byte
+	switch r.Intn(9) {
+	case 0, 1, 2: // CHECKPREDICATE  <items> n <pred> limit
+		pred := [][]byte{{0x51}, {0x51, 0x51, 0x93}, {}, {0x00}, {0x61, 0x51}}[r.Intn(5)]
+		b = append(b, small(2)...)
+		if r.Intn(4) == 0 {
+			b = append(operand(), vm.PushDataBytes(pred)...)
+			b = append(b, small(300)...)
+		} else {
+			b = append(b, vm.PushDataBytes(pred)...)
+			b = append(b, operand()...)
+		}
+		b = append(b, 0xc0)
+		b = append(b, []byte{0x91, 0x75, 0x69}[r.Intn(3)])
+	case 3: // PICK / ROLL
+		b = append(append(str, str...), operand()...)
+		b = append(b, []byte{0x79, 0x7a}[r.Intn(2)])
+	case 4: // LEFT / RIGHT
+		b = append(str, operand()...)
+		b = append(b, []byte{0x80, 0x81}[r.Intn(2)])
+	case 5: // SUBSTR
+		b = str
+		if r.Intn(2) == 0 {
+			b = append(append(b, operand()...), small(4)...)
+		} else {
+			b = append(append(b, small(4)...), operand()...)
+		}
+		b = append(b, 0x7f)
+	case 6: // CHECKOUTPUT index amount assetid vmversion code
+		ops := [][]byte{small(3), small(100), vm.PushDataBytes(bytes.Repeat([]byte{5}, 32)), small(2), vm.PushDataBytes([]byte{0x51})}
+		ops[[]int{0, 1, 3}[r.Intn(3)]] = operand()
+		for _, o := range ops {
+			b = append(b, o...)
+		}
+		b = append(b, 0xc1)
+	case 7: // CHECKMULTISIG msg nsigs npubkeys
+		b = vm.PushDataBytes(bytes.Repeat([]byte{7}, 32))
+		if r.Intn(2) == 0 {
+			b = append(append(b, operand()...), small(2)...)
+		} else {
+			b = append(append(b, small(2)...), operand()...)
+		}
+		b = append(b, 0xad)
+	default: // arithmetic near the borders
+		b = append(operand(), operand()...)
+		b = append(b, []byte{0x93, 0x94, 0x95, 0x98, 0x99, 0xa3}[r.Intn(6)])
+	}
+	return b
 }
 
 type c07jump struct {
@@ -50,6 +139,10 @@ func (g *c07gen) program(depth int, allowLoops bool) []byte {
 	push := func(b []byte) { blocks = append(blocks, b) }
 	randBytes := func(n int) []byte { b := make([]byte, n); r.Read(b); return b }
 	for i := 0; i < nb; i++ {
+		if r.Intn(100) < 12 { // dedicated share: border operands of the bigIntInt64 family
+			push(g.bigOperandBlock(depth))
+			continue
+		}
 		switch x := r.Intn(100); {
 		case x < 14: // numbers and arithmetic
 			ops := []byte{0x93, 0x94, 0x95, 0x96, 0x97, 0x98, 0x99, 0xa3, 0xa4, 0x9c, 0x9f, 0xa0}
@@ -247,7 +340,7 @@ func c07usesAlt(k *vmCase) bool {
 
 func c07one(c *Ctx, k *vmCase, tag string) {
 	ctx := k.context()
-	sink := &traceSink{hash: 14695981039346656037, budget: vmStepBudget(k.limit)}
+	sink := &traceSink{hash: 14695981039346656037, budget: vmStepBudget(k.limit), unpaidLen: k.unpaidPushCosts()}
 	track := !c07usesAlt(k)
 	if track {
 		sink.track = true
@@ -289,14 +382,31 @@ func c07one(c *Ctx, k *vmCase, tag string) {
 	if bytes.IndexByte(k.code, 0xc0) >= 0 {
 		c.Count("has/checkpredicate")
 	}
-	// ---- direct oracle
+	// ---- direct oracle (the property on the implementation alone)
+	// (a) no VM ever runs with a negative run limit
+	if sink.minLimit < 0 {
+		failCapped(c, sigNegLimit, fmt.Sprintf("limit %d: %s", k.limit, sink.minLine))
+	}
+	// (b) termination within the step bound (every instruction costs >= 1 of a potential <= limit)
 	if sink.fired {
-		failCapped(c, sigNonTerm, fmt.Sprintf("more than %d instructions traced; limit %d", sink.budget, k.limit))
+		created := sink.maxLimit0 - k.limit
+		if sink.knownEvent > 0 && created <= sink.allowance {
+			failCapped(c, sigNonTerm, fmt.Sprintf("more than %d instructions traced; limit %d", sink.budget, k.limit))
+		} else {
+			failCapped(c, sigNonTermNew, fmt.Sprintf("more than %d instructions traced; limit %d, run limit reached %d, known refunds account for %d",
+				sink.budget, k.limit, sink.maxLimit0, sink.allowance))
+		}
 		return
 	}
+	// (c) gas is never created: 0 <= gasLeft <= gasLimit
 	if k.limit >= 0 && (gasLeft < 0 || gasLeft > k.limit) {
-		failCapped(c, sigInflation, fmt.Sprintf("limit %d gasLeft %d err %s", k.limit, gasLeft, class))
+		if gasLeft > k.limit && sink.knownEvent > 0 && gasLeft-k.limit <= sink.allowance {
+			failCapped(c, sigInflation, fmt.Sprintf("limit %d gasLeft %d err %s", k.limit, gasLeft, class))
+		} else {
+			failCapped(c, sigCreated, fmt.Sprintf("limit %d gasLeft %d err %s (known refunds account for %d)", k.limit, gasLeft, class, sink.allowance))
+		}
 	}
+	// (d) every completed depth-0 instruction takes >= 1 from the potential
 	if track {
 		for _, rp := range sink.phiReports {
 			c.Count("phi-checked")
@@ -306,8 +416,10 @@ func c07one(c *Ctx, k *vmCase, tag string) {
 			switch {
 			case rp.op == "CHECKMULTISIG" && rp.delta == 0:
 				failCapped(c, sigFreeMS, fmt.Sprintf("Φ unchanged by CHECKMULTISIG"))
-			case rp.op == "CHECKPREDICATE":
+			case rp.op == "CHECKPREDICATE" && rp.allow > 0 && rp.delta+rp.allow >= 1:
 				failCapped(c, sigCPGain, fmt.Sprintf("Φ changed by %d over one CHECKPREDICATE", -rp.delta))
+			case rp.op == "CHECKPREDICATE":
+				failCapped(c, sigCPCreated, fmt.Sprintf("Φ changed by %d over one CHECKPREDICATE, known refunds account for %d", -rp.delta, rp.allow))
 			default:
 				failCapped(c, fmt.Sprintf("instruction %s took %d from the potential", rp.op, rp.delta), "every executed instruction must consume at least one unit")
 			}
@@ -316,7 +428,7 @@ func c07one(c *Ctx, k *vmCase, tag string) {
 }
 
 func runC07(c *Ctx) {
-	c.Rule = "programs from a grammar: pushes, arithmetic, stack shuffles, PICK/ROLL, alt stack, splice chains (incl. DUP n LEFT x CAT), hashes, introspection, forward/backward JUMP and JUMPIF (targets at block boundaries, 4% elsewhere), counted loops, nested CHECKPREDICATE up to depth 4 with child limits 0 / <12 / <200 / <3000 / larger than the parent, zero-key CHECKMULTISIG, expansion opcodes, malformed tails; 0..2 arguments, optional state data; gas limits 0..64, <1500, <20000, 100000, MaxGasAmount; a case is distinct by its op line"
+	c.Rule = "programs from a grammar: pushes, arithmetic, stack shuffles, PICK/ROLL, alt stack, splice chains (incl. DUP n LEFT x CAT), hashes, introspection, forward/backward JUMP and JUMPIF (targets at block boundaries, 4% elsewhere), counted loops, nested CHECKPREDICATE up to depth 4 with child limits 0 / <12 / <200 / <3000 / larger than the parent, zero-key CHECKMULTISIG, expansion opcodes, malformed tails; a 12% share of instructions of the bigIntInt64/Uint64 family (CHECKPREDICATE limit and count, PICK/ROLL, LEFT/RIGHT/SUBSTR, CHECKOUTPUT index/amount/vmVersion, CHECKMULTISIG counts) fed with border operands (2^63-2..2^63+1, 2^64-k, 2^64..2^64+5, 9..32-byte numbers with a small low word, 2^255-1, 2^255) plus the full operand x opcode family straight and in a JUMP loop; 0..2 arguments, optional state data; gas limits 0..64, <1500, <20000, 100000, MaxGasAmount; a case is distinct by its op line"
 	g := &c07gen{c}
 	lines := c.CorpusLines()
 	if c.Replay != "" {
@@ -342,6 +454,45 @@ func runC07(c *Ctx) {
 				continue
 			}
 			c07one(c, &vmCase{vmVersion: 1, limit: lim, code: p, entryID: make([]byte, 32), txVersion: u64p(1)}, "tiny")
+		}
+	}
+	// border-operand family: every opcode that converts a stack item to int64 / uint64, with every
+	// border operand, once straight and (CHECKPREDICATE) once in a `… DROP JUMP 0` loop
+	full := func(code []byte, limit int64) *vmCase {
+		a := bytes.Repeat([]byte{5}, 32)
+		return &vmCase{vmVersion: 1, limit: limit, code: code, entryID: make([]byte, 32), txVersion: u64p(1),
+			assetID: &a, amount: u64p(7), destPos: u64p(0), checkOutput: true}
+	}
+	cat := func(parts ...[]byte) []byte {
+		var out []byte
+		for _, p := range parts {
+			out = append(out, p...)
+		}
+		return out
+	}
+	str := vm.PushDataBytes([]byte("abcdefgh"))
+	msg := vm.PushDataBytes(bytes.Repeat([]byte{7}, 32))
+	for _, opnd := range c07big {
+		o := vm.PushDataBytes(opnd)
+		progs := [][]byte{
+			cat(num(0), []byte{0x01, 0x51}, o, []byte{0xc0, 0x91}),                          // 0 <TRUE> limit CHECKPREDICATE NOT
+			cat(num(0), []byte{0x01, 0x51}, o, []byte{0xc0, 0x75, 0x63, 0, 0, 0, 0}),        // … DROP JUMP 0
+			cat(o, []byte{0x01, 0x51}, num(100), []byte{0xc0, 0x91}),                        // n = operand
+			cat(num(0), []byte{0x03, 0x51, 0x51, 0x93}, o, []byte{0xc0, 0x75, 0x51}),        // longer predicate
+			cat(str, str, o, []byte{0x79}), cat(str, str, o, []byte{0x7a}),                  // PICK ROLL
+			cat(str, o, []byte{0x80}), cat(str, o, []byte{0x81}),                            // LEFT RIGHT
+			cat(str, o, num(2), []byte{0x7f}), cat(str, num(2), o, []byte{0x7f}),            // SUBSTR
+			cat(o, num(5), vm.PushDataBytes(bytes.Repeat([]byte{5}, 32)), num(1), []byte{0x01, 0x51, 0xc1}), // CHECKOUTPUT index
+			cat(num(0), o, vm.PushDataBytes(bytes.Repeat([]byte{5}, 32)), num(1), []byte{0x01, 0x51, 0xc1}), // CHECKOUTPUT amount
+			cat(num(0), num(5), vm.PushDataBytes(bytes.Repeat([]byte{5}, 32)), o, []byte{0x01, 0x51, 0xc1}), // CHECKOUTPUT vmVersion
+			cat(msg, num(0), o, []byte{0xad}), cat(msg, o, num(1), []byte{0xad}),            // CHECKMULTISIG counts
+		}
+		for _, p := range progs {
+			c07one(c, full(p, 10000), "border")
+			if c.Tier != "quick" {
+				c07one(c, full(p, 300), "border")
+				c07one(c, full(p, consensus.MaxGasAmount), "border")
+			}
 		}
 	}
 	for i := 0; i < c.N; i++ {
